@@ -113,6 +113,7 @@ func (rn *Runner) Run(jobs []runlib.Job, handle func(runlib.Event)) {
 				doneJobs := 0
 				var last runlib.Event
 				finished := false
+				bailed := false
 				if f, err := os.Open(outPath); err == nil {
 					sc := bufio.NewScanner(f)
 					sc.Buffer(make([]byte, 1<<20), 1<<28)
@@ -128,6 +129,8 @@ func (rn *Runner) Run(jobs []runlib.Job, handle func(runlib.Event)) {
 							doneJobs++
 						case "runner-done":
 							finished = true
+						case "bail":
+							bailed = true // the runner reported the problem itself and exited on purpose
 						}
 						mu.Lock()
 						handle(e)
@@ -143,9 +146,11 @@ func (rn *Runner) Run(jobs []runlib.Job, handle func(runlib.Event)) {
 					rn.pl.Rep.Inconclusive("runner process %d watchdog fired during %s %s %s", w, last.Prog, last.Cmd, last.What)
 					return
 				}
-				mu.Lock()
-				handle(runlib.Event{Prog: last.Prog, Kind: "abort", Cmd: last.Cmd, What: last.What, Message: core.Trunc(res.Out, 5000)})
-				mu.Unlock()
+				if !bailed {
+					mu.Lock()
+					handle(runlib.Event{Prog: last.Prog, Kind: "abort", Cmd: last.Cmd, What: last.What, Message: core.Trunc(res.Out, 5000)})
+					mu.Unlock()
+				}
 				// skip the job that died
 				if doneJobs+1 <= len(batch) {
 					batch = batch[doneJobs+1:]
